@@ -690,9 +690,9 @@ Proof. apply list_eqb_refl, task_eqb_refl. Qed.
 Lemma task_eqb_eta t :
   t_meta t = true ->
   task_eqb t (mkTaskK (t_id t) (t_hook t) (t_ty t) true (t_ctxs t) (t_mids t) (t_qn t)
-                      (t_kube t) (t_group t) (t_exec t)) = true.
+                      (t_kube t) (t_group t) (t_exec t) (t_af t)) = true.
 Proof.
-  intros Hm. unfold task_eqb. cbn [t_id t_hook t_ty t_meta t_ctxs t_mids t_qn t_kube t_group t_exec].
+  intros Hm. unfold task_eqb. cbn [t_id t_hook t_ty t_meta t_ctxs t_mids t_qn t_kube t_group t_exec t_af].
   rewrite Hm, !N.eqb_refl, !Bool.eqb_reflx, ctxs_eqb_refl, ns_eqb_refl. reflexivity.
 Qed.
 
@@ -818,10 +818,10 @@ Proof.
 Qed.
 
 (* the worker's step on an executed head that went through the combiner *)
-Lemma step_combined sp qs t rest ok :
+Lemma step_combined sp qs t rest ok af :
   t_meta t = true -> get_by_name (t_qn t) qs = Some (t :: rest) -> NoDup (map t_id (t :: rest)) ->
   let p := combine_set sp t qs [] in
-  let t' := set_combined t (delivered_ctxs t (fst p)) (delivered_mids t (fst p)) in
+  let t' := set_combined t (delivered_ctxs t (fst p)) (delivered_mids t (fst p)) af in
   let q' := match get_by_name (t_qn t) (snd p) with Some q' => q' | None => [] end in
   executed_with sp t rest (t_qn t)
     (mkSO [mkRun (t_hook t) (delivered_ctxs t (fst p))] ok
@@ -834,16 +834,17 @@ Proof.
   rewrite (get_set_same (t_qn t) (t :: after_block sp t rest) qs _ Hq).
   rewrite set_set, (get_set_same (t_qn t) _ qs _ Hq).
   cbn [ru_hook ru_ctxs]. rewrite N.eqb_refl. cbn [andb].
-  assert (Ht : forall cs ms, task_eqb (set_combined t cs ms)
-             (mkTaskK (t_id t) (t_hook t) (t_ty t) true cs ms (t_qn t) (t_kube t) (t_group t) (t_exec t)) = true).
-  { intros cs ms. unfold set_combined. rewrite Hm. apply task_eqb_refl. }
+  assert (Ht : forall cs ms, task_eqb (set_combined t cs ms af)
+             (mkTaskK (t_id t) (t_hook t) (t_ty t) true cs ms (t_qn t) (t_kube t) (t_group t) (t_exec t)
+                      (t_af (set_combined t cs ms af))) = true).
+  { intros cs ms. unfold set_combined. cbn [t_af]. rewrite Hm. apply task_eqb_refl. }
   destruct (block sp t rest) as [|b0 b] eqn:Eb; cbn [is_nil orb flat_map].
   - rewrite !app_nil_r, left_out_ok_refl. cbn [andb].
-    destruct ok; [rewrite remove_id_head | rewrite replace_id_head by reflexivity]; cbn [app].
+    destruct ok; [rewrite remove_id_head | rewrite replace_id_head by reflexivity]; cbn [app stored_policy].
     + apply tasks_eqb_refl.
     + unfold tasks_eqb. cbn [list_eqb]. rewrite Ht. apply tasks_eqb_refl.
   - rewrite left_out_ok_compact, compact_runs, ctxs_eqb_refl. cbn [andb].
-    destruct ok; [rewrite remove_id_head | rewrite replace_id_head by reflexivity]; cbn [app].
+    destruct ok; [rewrite remove_id_head | rewrite replace_id_head by reflexivity]; cbn [app stored_policy].
     + apply tasks_eqb_refl.
     + unfold tasks_eqb. cbn [list_eqb]. rewrite Ht. apply tasks_eqb_refl.
 Qed.
@@ -859,7 +860,7 @@ Proof.
   destruct (block_stop_all t rest) as [Eb Ea]. rewrite Eb, Ea.
   rewrite named_get_by_name, (get_set_same (t_qn t) _ qs _ Hq).
   cbn [ru_hook ru_ctxs flat_map is_nil orb]. rewrite !app_nil_r, N.eqb_refl, left_out_ok_refl. cbn [andb].
-  destruct ok; [rewrite remove_id_head | rewrite replace_id_head by reflexivity]; cbn [app].
+  destruct ok; [rewrite remove_id_head | rewrite replace_id_head by reflexivity]; cbn [app stored_policy].
   - apply tasks_eqb_refl.
   - unfold tasks_eqb. cbn [list_eqb]. rewrite (task_eqb_eta t Hm). apply tasks_eqb_refl.
 Qed.
@@ -949,7 +950,7 @@ Qed.
 Lemma loose_run_leaves_queues v0s qs t ok :
   ~ In (t_qn t) (map fst qs) ->
   model_step v0s qs (SLoose t ok)
-  = if should_run (mem_N (t_hook t) v0s) t then mkSO [mkRun (t_hook t) (t_ctxs t)] ok qs
+  = if should_run (mem_N (t_hook t) v0s) t then mkSO [mkRun (t_hook t) (t_ctxs t)] (forgiven ok t) qs
     else mkSO [] true qs.
 Proof.
   intros H. cbn [model_step]. unfold handle_hook_run.
@@ -997,7 +998,7 @@ Lemma executed_head_block v0s qs t rest ok :
   let b := block (stop_rule t) t rest in
   st_runs o = [mkRun (t_hook t) (if is_nil b then t_ctxs t else spec_compact (t_ctxs t ++ flat_map t_ctxs b))]
   /\ map t_id (match get_by_name (t_qn t) (st_state o) with Some q => q | None => [] end)
-     = (if ok then [] else [t_id t]) ++ map t_id (after_block (stop_rule t) t rest)
+     = (if st_success o then [] else [t_id t]) ++ map t_id (after_block (stop_rule t) t rest)
   /\ Forall (fun x => exempt x = false \/ synchronization t = false) b.
 Proof.
   intros W Hq Hty V R. cbv zeta.
@@ -1021,11 +1022,15 @@ Proof.
       rewrite Hs, (gate_open_rule t G).
       rewrite (get_set_same (t_qn t) (t :: after_block (stop_combine t) t rest) qs _ Hq).
       rewrite set_set, (get_set_same (t_qn t) _ qs _ Hq).
-      destruct ok; [rewrite remove_id_head | rewrite replace_id_head by reflexivity]; reflexivity.
+      cbn [st_success status_ok].
+      match goal with |- context [forgiven ?a ?b] => destruct (forgiven a b) end;
+        [rewrite remove_id_head | rewrite replace_id_head by reflexivity]; reflexivity.
     + rewrite (gate_closed false t qs G), R, (gate_closed_rule t G R). cbn [fst snd status_ok].
       rewrite Hq, (get_set_same (t_qn t) _ qs _ Hq).
       destruct (block_stop_all t rest) as [_ Ea]. rewrite Ea.
-      destruct ok; [rewrite remove_id_head | rewrite replace_id_head by reflexivity]; reflexivity.
+      cbn [st_success status_ok].
+      match goal with |- context [forgiven ?a ?b] => destruct (forgiven a b) end;
+        [rewrite remove_id_head | rewrite replace_id_head by reflexivity]; reflexivity.
   - apply Forall_forall. intros x Hx.
     pose proof (take_while_all _ (mergeable (stop_rule t) t) rest) as Hall.
     fold (block (stop_rule t) t rest) in Hall. rewrite Forall_forall in Hall. specialize (Hall x Hx).
